@@ -482,7 +482,28 @@ pub fn record_histories(n: usize, seed: u64, out: &mut dyn Write) {
             let len = if rng.gen_bool(0.7) { lens[rng.gen_range(0..2)] } else { rng.gen_range(1..=8) };
             let op: Value = match rng.gen_range(0..100) {
                 0..=24 => {
-                    let t = if rng.gen_bool(0.06) { String::new() } else { rand_text(&mut rng, &alpha, len, len) };
+                    let t = if rng.gen_bool(0.06) {
+                        String::new()
+                    } else if rng.gen_bool(0.25) {
+                        // a text with exactly the BYTE length of the current one but the other kind of characters
+                        // (single-byte after multi-byte and vice versa): per-byte tables of the old text must not survive
+                        let cur = s.as_raw_text().to_string();
+                        let nb = cur.len();
+                        let pool: Vec<char> = if cur.is_ascii() {
+                            alpha.iter().cloned().filter(|c| c.len_utf8() == 3).collect()
+                        } else {
+                            alpha.iter().cloned().filter(|c| c.is_ascii()).collect()
+                        };
+                        if pool.is_empty() || nb == 0 || (cur.is_ascii() && nb % 3 != 0) {
+                            rand_text(&mut rng, &alpha, len, len)
+                        } else if cur.is_ascii() {
+                            rand_text(&mut rng, &pool, nb / 3, nb / 3)
+                        } else {
+                            rand_text(&mut rng, &pool, nb, nb)
+                        }
+                    } else {
+                        rand_text(&mut rng, &alpha, len, len)
+                    };
                     json!({"op": "up_raw", "s": str_to_cps(&t)})
                 }
                 25..=34 => {
@@ -583,9 +604,14 @@ pub fn record_serde(n_models: usize, seed: u64, out: &mut dyn Write) {
         let mj = mmodel_to_json(&mm);
         // predict_tags = true also for models without tag models
         let tags = id % 2 == 0 || with_tags;
-        let trail: Vec<u8> = (0..rng.gen_range(0..6)).map(|_| rng.gen()).collect();
-        let a = predictor_from_json(&json!({"model": mj, "tags": tags, "store": tags}));
-        let b = predictor_from_json_rest(&json!({"model": mj, "tags": tags, "store": tags, "serde": true, "trail": trail}));
+        // trailing bytes: random, often starting with a small value (0, 1, 2 look like flags / lengths to a decoder)
+        let mut trail: Vec<u8> = (0..rng.gen_range(0..6)).map(|_| rng.gen()).collect();
+        if !trail.is_empty() && rng.gen_bool(0.5) {
+            trail[0] = rng.gen_range(0..3);
+        }
+        let store = tags && id % 4 != 1;
+        let a = predictor_from_json(&json!({"model": mj, "tags": tags, "store": store}));
+        let b = predictor_from_json_rest(&json!({"model": mj, "tags": tags, "store": store, "serde": true, "trail": trail}));
         let (pa, pb, rest) = match (a, b) {
             (Ok(pa), Ok((pb, rest))) => (pa, pb, rest),
             (a, b) => {
@@ -609,7 +635,7 @@ pub fn record_serde(n_models: usize, seed: u64, out: &mut dyn Write) {
                         s.fill_tags();
                     }
                     let st = proj_state(s);
-                    let tk = proj_tokens(s, tags && !mm.tags.is_empty() && mm.tags.iter().any(|t| !t.tags.is_empty()));
+                    let tk = proj_tokens(s, store && !mm.tags.is_empty() && mm.tags.iter().any(|t| !t.tags.is_empty()));
                     json!({"scores": st["scores"], "bnd": st["bnd"], "ntags": st["ntags"], "tags": st["tags"], "tokens": tk})
                 }));
                 match r {
